@@ -339,6 +339,12 @@ def run(tier, seed, driver_ok):
     global MAX_STEPS
     MAX_STEPS = 4 if tier == "quick" else 6
     extra = exhaustive_cases(seed, 2 if tier == "quick" else 6, 2 if tier == "quick" else 3)
+    # minimised past failures run first (corpus/C07/*.json: doc + steps)
+    import json as _json
+
+    for i, f in enumerate(sorted((common.VERIF / "corpus" / "C07").glob("*.json"))):
+        c = _json.loads(f.read_text())
+        extra.insert(0, {"seed": -2, "index": i, "stream": "corpus:" + f.stem, "doc": c["doc"], "features": [], "steps": c["steps"]})
     res = doccheck.run_doc_check(
         "C07", tier, seed, driver_ok, n_quick=160, n_thorough=2500,
         profiles=[("default", dict(PROFILES["default"]), 3), ("clean_start", dict(PROFILES["clean_start"]), 1),
@@ -367,6 +373,21 @@ def run(tier, seed, driver_ok):
             d = compare_step(rd, o)
             if d:
                 res["corr_mismatches"].append({"corr": d[0], "case": {"step": rd["step"], "doc": rd["in_doc"]}, "what": d[1]})
+        # (c) every edit round as submitted (searched targets) against Adeu.Doc.applyEdits on the reached document
+        from .. import heur
+
+        hp = [rd for r in results for rd in r["rounds"] if rd["step"]["kind"] == "edits" and not rd["res"]["err"]]
+        hl = [heur.driver_line(rd["in_doc"], rd["step"]["edits"], rd["res"], rd["step"]["author"]) for rd in hp]
+        ho = common.run_driver_parallel(hl)
+        nh = 0
+        for rd, ln, o in zip(hp, hl, ho):
+            if ln.get("op") == "ping":
+                continue
+            nh += 1
+            res["compared"] += 1
+            for d in heur.compare(rd["in_doc"], rd["res"], o, rd["step"]["author"]):
+                res["corr_mismatches"].append({"corr": d[0] + " (round of a history)", "case": {"step": rd["step"], "doc": rd["in_doc"]}, "what": d[1]})
+        res["heuristic_correspondence"] = {"rounds_compared": nh}
     res["hypothesis_hits"] = {"rounds": sum(len(r["rounds"]) for r in results),
                               "whole_histories_compared": sum(1 for r in results if driver_line(r).get("op") == "history")}
     return res
